@@ -1544,8 +1544,8 @@ pub fn run(mut ctx: Ctx) -> ! {
             "exhaustive_parts",
             json!({
                 "parse": "complete: 6 formatter names x all argument states (omitted / each valid value / unknown value / wrong case / 2 misspelt names / every ordered pair duplicated / unknown-then-valid) x both argument orders x 4 extra-argument variants x 4 whitespace styles (+ trailing ';')",
-                "macro": "complete: every option combination of every formatter through td_format_string!/td_format_display!, 32 keys through td_string!/td_display!, x 8 locales x 3 values",
-                "matrix": "complete: every option combination x value pool x 8 locales x 3 flavours of the __private helpers",
+                "macro": "complete: every option combination of every formatter that ICU4X 1.5 can build (time lengths full/long cannot: time-zone field) through td_format_string!/td_format_display!, 32 keys through td_string!/td_display!, x 8 locales x 3 values",
+                "matrix": "complete: every option combination ICU4X 1.5 can build x value pool x 8 locales x 3 flavours of the __private helpers",
                 "seq": "sampled (not exhaustive): generated call histories / thread schedules",
             }),
         );
